@@ -68,6 +68,68 @@ class Injected:
     pass
 
 
+UIDV = "pwd.getpwnam(%s)[2]" % UIDNAME
+GIDV = "grp.getgrnam(%s)[2]" % GIDNAME
+START_CREDS = {   # [ruid, euid, suid, rgid, egid, sgid, groups]
+    "root": ["0", "0", "0", "0", "0", "0", "(0)"],
+    "launcher": [UIDV, "0", "0", GIDV, "0", "0", "(0)"],     # started through a set-uid-root launcher
+    "dropped": [UIDV, UIDV, UIDV, GIDV, GIDV, GIDV, "()"],   # started as the account itself
+}
+
+
+class Creds:
+    """The simulated credentials of the process (symbolic ids).  The set* calls
+    change them with Linux semantics for a process allowed to make the change;
+    refusal (EPERM) is not simulated — every call also fails in turn by injection."""
+
+    def __init__(self, start):
+        (self.ruid, self.euid, self.suid, self.rgid, self.egid, self.sgid, self.groups) = START_CREDS[start]
+
+    def as_list(self):
+        return [self.ruid, self.euid, self.suid, self.rgid, self.egid, self.sgid, self.groups]
+
+    @staticmethod
+    def val(s):
+        return 0 if s == "0" else Sym(s)
+
+    def apply(self, name, a):
+        keep = lambda new, old: old if new == "-1" else new   # noqa
+        if name == "os.setgroups" and len(a) == 1:
+            self.groups = a[0]
+        elif name == "os.setuid" and len(a) == 1:
+            if self.euid == "0":
+                self.ruid = self.euid = self.suid = a[0]
+            else:
+                self.euid = a[0]
+        elif name == "os.setgid" and len(a) == 1:
+            if self.euid == "0":
+                self.rgid = self.egid = self.sgid = a[0]
+            else:
+                self.egid = a[0]
+        elif name == "os.seteuid" and len(a) == 1:
+            self.euid = a[0]
+        elif name == "os.setegid" and len(a) == 1:
+            self.egid = a[0]
+        elif name == "os.setreuid" and len(a) == 2:
+            r, e = a
+            new_e = keep(e, self.euid)
+            if not (r == "-1" and (e == "-1" or e == self.ruid)):
+                self.suid = new_e
+            self.ruid, self.euid = keep(r, self.ruid), new_e
+        elif name == "os.setregid" and len(a) == 2:
+            r, e = a
+            new_e = keep(e, self.egid)
+            if not (r == "-1" and (e == "-1" or e == self.rgid)):
+                self.sgid = new_e
+            self.rgid, self.egid = keep(r, self.rgid), new_e
+        elif name == "os.initgroups" and len(a) == 2:
+            self.groups = "initgroups(%s,%s)" % (a[0], a[1])
+        elif name == "os.setresuid" and len(a) == 3:
+            self.ruid, self.euid, self.suid = keep(a[0], self.ruid), keep(a[1], self.euid), keep(a[2], self.suid)
+        elif name == "os.setresgid" and len(a) == 3:
+            self.rgid, self.egid, self.sgid = keep(a[0], self.rgid), keep(a[1], self.egid), keep(a[2], self.sgid)
+
+
 def make_exc(cls):
     if cls == "XOS":
         return PermissionError(errno.EPERM, "Operation not permitted (injected)")
@@ -77,7 +139,8 @@ def make_exc(cls):
 
 
 class Recorder:
-    def __init__(self, fail, cfgpath, fork_parent):
+    def __init__(self, fail, cfgpath, fork_parent, start="root"):
+        self.creds = Creds(start)
         self.trace = []
         self.attempts = []
         self.n = 0
@@ -96,6 +159,12 @@ class Recorder:
             return "None"
         if isinstance(x, tuple) and len(x) == 0:
             return "()"
+        if isinstance(x, bool):
+            return "True" if x else "False"
+        if isinstance(x, int):
+            return str(x)
+        if isinstance(x, (tuple, list)) and all(isinstance(y, (int, Sym)) for y in x):
+            return "(" + ",".join(self.render(y) for y in x) + ")"
         if isinstance(x, str):
             return CONFNAME if x == self.cfgpath else x
         if x is ssl.Purpose.CLIENT_AUTH:
@@ -116,6 +185,7 @@ class Recorder:
             self.injected = make_exc(self.fail[1])
             raise self.injected
         self.trace.append([name, rargs])
+        self.creds.apply(name, rargs)
         if result is None:
             return Sym("%s(%s)" % (name, ",".join(rargs)))
         return result() if callable(result) else result
@@ -203,7 +273,7 @@ def write_config(repo, path, opts):
         cp.write(f)
 
 
-def run_case(drv, tmp, entry, opts, fail, fork_parent):
+def run_case(drv, tmp, entry, opts, fail, fork_parent, start="root"):
     """One real start-up under substitution.  Returns the canonical outcome."""
     import mimetypes
     import ssl as real_ssl
@@ -213,7 +283,8 @@ def run_case(drv, tmp, entry, opts, fail, fork_parent):
 
     cfgpath = os.path.join(tmp, CONFNAME)
     write_config(drv.REPO, cfgpath, opts)
-    rec = Recorder(tuple(fail) if fail else None, cfgpath, fork_parent)
+    rec = Recorder(tuple(fail) if fail else None, cfgpath, fork_parent, start)
+    cr = rec.creds
 
     def patch_config(cfg):
         orig_set = cfg.set
@@ -251,7 +322,12 @@ def run_case(drv, tmp, entry, opts, fail, fork_parent):
 
     os_proxy = ModProxy(rec, os, "os", OS_PASS,
                         results={"fork": (lambda: 4242 if fork_parent else 0), "getpid": lambda: 12345,
-                                 "getpgrp": lambda: 12345})
+                                 "getpgrp": lambda: 12345,
+                                 "getuid": lambda: Creds.val(cr.ruid), "geteuid": lambda: Creds.val(cr.euid),
+                                 "getgid": lambda: Creds.val(cr.rgid), "getegid": lambda: Creds.val(cr.egid),
+                                 "getresuid": lambda: (Creds.val(cr.ruid), Creds.val(cr.euid), Creds.val(cr.suid)),
+                                 "getresgid": lambda: (Creds.val(cr.rgid), Creds.val(cr.egid), Creds.val(cr.sgid)),
+                                 "getgroups": lambda: [] if cr.groups == "()" else [Sym(cr.groups)]})
     ssl_proxy = ModProxy(rec, real_ssl, "ssl", {"Purpose", "SSLContext", "SSLError", "PROTOCOL_TLS_SERVER"},
                          ctor_vars={"create_default_context": "context"})
     sig_proxy = ModProxy(rec, real_sig, "sighandlers", set())
@@ -318,7 +394,7 @@ def run_case(drv, tmp, entry, opts, fail, fork_parent):
     if fail and fail[0] < len(rec.attempts):
         failed_call = rec.attempts[fail[0]]
     return {"kind": kind, "origin": origin, "exc": excname, "trace": rec.trace, "attempts": rec.n,
-            "failed_call": failed_call}
+            "failed_call": failed_call, "start": start, "start_creds": START_CREDS[start], "final_creds": cr.as_list()}
 
 
 def op_c19_sweep(job, drv):
@@ -329,15 +405,16 @@ def op_c19_sweep(job, drv):
     try:
         for cfgjob in job["configs"]:
             entry, opts = cfgjob["entry"], cfgjob["opts"]
-            base = run_case(drv, tmp, entry, opts, None, False)
-            out.append({"entry": entry, "opts": opts, "fail": None, "fork_parent": False, "res": base})
-            if entry == "initialize" and opts["detach"]:
-                out.append({"entry": entry, "opts": opts, "fail": None, "fork_parent": True,
-                            "res": run_case(drv, tmp, entry, opts, None, True)})
-            for k in range(base["attempts"]):
-                for cls in job["classes"]:
-                    out.append({"entry": entry, "opts": opts, "fail": [k, cls], "fork_parent": False,
-                                "res": run_case(drv, tmp, entry, opts, [k, cls], False)})
+            for start in cfgjob.get("starts", ["root"]):
+                base = run_case(drv, tmp, entry, opts, None, False, start)
+                out.append({"entry": entry, "opts": opts, "fail": None, "fork_parent": False, "start": start, "res": base})
+                if entry == "initialize" and opts["detach"]:
+                    out.append({"entry": entry, "opts": opts, "fail": None, "fork_parent": True, "start": start,
+                                "res": run_case(drv, tmp, entry, opts, None, True, start)})
+                for k in range(base["attempts"]):
+                    for cls in job["classes"]:
+                        out.append({"entry": entry, "opts": opts, "fail": [k, cls], "fork_parent": False, "start": start,
+                                    "res": run_case(drv, tmp, entry, opts, [k, cls], False, start)})
     finally:
         shutil.rmtree(tmp, ignore_errors=True)
     return out
@@ -346,7 +423,8 @@ def op_c19_sweep(job, drv):
 def op_c19_one(job, drv):
     tmp = tempfile.mkdtemp(prefix="pgverif-c19-")
     try:
-        return run_case(drv, tmp, job["entry"], job["opts"], job.get("fail"), job.get("fork_parent", False))
+        return run_case(drv, tmp, job["entry"], job["opts"], job.get("fail"), job.get("fork_parent", False),
+                        job.get("start", "root"))
     finally:
         shutil.rmtree(tmp, ignore_errors=True)
 
